@@ -115,6 +115,16 @@ def check_eval2(ctx: Ctx, c: Dict[str, Any]) -> None:
             outK = B.evaluate_cubic_bspline(coeff, stride=s, size=tuple(m), kernel=kern, transpose=True)[0, 0]
             if tuple(outK.shape) != tuple(f.shape) or max_err(outK, f) > 2e-6 * scale:
                 ctx.violation(dict(op="evaluate_cubic_bspline", transpose=True, kernels="explicit", **sig0), f"2-D transposed evaluation with explicit per-axis kernels (stride={s}) differs", c)
+        if d == [0, 0] and s[0] == s[1]:
+            from deepali.core.kernels import cubic_bspline1d as _k1
+
+            outS = B.evaluate_cubic_bspline(coeff, stride=s[0], size=tuple(m), kernel=_k1(s[0]).double(), transpose=True)[0, 0]
+            if tuple(outS.shape) != tuple(f.shape) or max_err(outS, f) > 2e-6 * scale:
+                ctx.violation(dict(op="evaluate_cubic_bspline", transpose=True, kernels="single", **sig0), f"2-D transposed evaluation with ONE kernel tensor for all axes (stride={s[0]}) differs", c)
+            wS = B.cubic_bspline_interpolation_weights(s[0], dtype=torch.float64)
+            outW = B.evaluate_cubic_bspline(coeff, stride=s[0], size=tuple(m), kernel=wS)[0, 0]
+            if tuple(outW.shape) != tuple(f.shape) or max_err(outW, f) > 1e-9 * scale:
+                ctx.violation(dict(op="evaluate_cubic_bspline", kernels="single weights", **sig0), f"2-D evaluation with ONE weight table for all axes (stride={s[0]}) differs", c)
         # the same derivative through spatial_derivatives(mode='bspline'): the spline derivative per coefficient spacing, divided by the
         # physical spacing of each axis once per derivative order along it
         if d != [0, 0]:
